@@ -19,7 +19,10 @@ def install(ext, schema):
     cfg_uses_binary = z3.Const('cfg_uses_binary_events', B)
     ext.module_attrs[('classattr', 'socketio.packet.Packet', 'uses_binary_events')] = lambda eng, ctx: S(cfg_uses_binary)
     ext.rec_classes['Packet'] = ('packet', 'Packet')
+    ext.module_attrs[('socketio.base_client', 'reconnecting_clients')] = lambda eng, ctx: ctx.alloc('rec', {}, cls='Sink')
     m = ext.obj_methods
+    m[('Sink', 'append')] = lambda eng, ctx, args, kwargs, me: iter([(ctx, S(NONE))])
+    m[('Sink', 'remove')] = lambda eng, ctx, args, kwargs, me: iter([(ctx, S(NONE))])
     m[('EioServer', 'generate_id')] = eio_generate_id
     m[('EioServer', 'send')] = eio_server_send
     m[('EioServer', 'send_packet')] = eio_server_send_packet
